@@ -8,6 +8,10 @@ from ..spec.contracts import CONTRACTS
 CAT = 'abacusnbody/data/compaso_halo_catalog.py'
 UTIL = 'abacusnbody/util.py'
 FILES = [CAT, UTIL]
+# functions the generic rules (history independence, caller-owned containers, element types) look at in addition to those the
+# rules below are about: the option parsing every load goes through (the same selection object is typically reused across the loads
+# that the property compares)
+EXTRA_SCOPE = {CAT: ['CompaSOHaloCatalog._setup_load_subsamples', 'CompaSOHaloCatalog._setup_unpack_bits']}
 CLS = 'CompaSOHaloCatalog.'
 
 
